@@ -79,7 +79,8 @@ def main():
     tree = "HEAD"
     rc, out = sh("git apply --check %s" % os.path.join(src, "patch.diff"), wt)
     if rc != 0:
-        rc3, out3 = sh("git apply --3way --check %s" % os.path.join(src, "patch.diff"), wt)
+        rc3, out3 = sh("git apply --3way %s" % os.path.join(src, "patch.diff"), wt)  # --check does not see merge conflicts
+        sh("git reset -q --hard", wt)
         if rc3 != 0:
             tree = "base"
             sh("git -C /repo worktree remove --force %s" % wt, "/")
@@ -93,6 +94,7 @@ def main():
                 if rcp != 0:
                     sh("git cherry-pick --abort; git checkout -- .", wt)
             sh("git -c user.email=v@v -c user.name=v commit -q -m hooks --allow-empty", wt)
+    print("evaluated on", tree)
     result = {"evaluated_at": time.strftime("%Y-%m-%dT%H:%M:%SZ", time.gmtime()), "steps": {}, "evaluated_on": tree,
               "repo_head": sh("git -C /repo rev-parse --short HEAD", "/")[1].strip()}
     ok = True
@@ -156,6 +158,9 @@ def main():
                 shutil.copytree(s, os.path.join(dst, f))
             elif f != "meta.json":
                 shutil.copy(s, dst)
+        import fcntl
+        lock = open(os.path.join(VERIF, ".work", "seeded-index.lock"), "w")
+        fcntl.flock(lock, fcntl.LOCK_EX)  # several evaluations may run side by side
         old = {}
         try:
             old = json.load(open(os.path.join(VERIF, "seeded", "index.json")))
